@@ -292,4 +292,55 @@ def seqRun : Nat → Nat → Cur Nat
     let s' ← seqAdvance s
     seqRun k s'
 
+/-! ### acceptance + fragment reassembly bookkeeping of `process_handshake_payload` (dtls/mod.rs:640-745) -/
+
+structure HsCtx where
+  recvSeq : Nat := 0          -- u16
+  postHvr : Bool := false
+  incLen : Nat := 0           -- `incomplete_handshake.len()`
+  incSeq : Nat := 0
+
+/-- a decoded handshake message header: type, total_length, message_seq, fragment_offset, fragment_length (= body length) -/
+structure HsMsg where
+  typ : Nat
+  total : Nat
+  seq : Nat
+  fragOff : Nat
+  fragLen : Nat
+
+/-- acceptance of `message_seq` against `recv_message_seq` (with the post-HelloVerifyRequest re-sync on the client):
+`(accepted, new recv_message_seq)` -/
+def acceptSeq (isClient : Bool) (recv : Nat) (postHvr : Bool) (seq : Nat) : Bool × Nat :=
+  if seq < recv then (if postHvr ∧ isClient then (true, seq) else (false, recv))
+  else if seq > recv then (if postHvr ∧ isClient then (true, seq) else (false, recv))
+  else (true, recv)
+
+/-- fragment handling of an accepted message; result 1 = dispatched to its handler, 2 = buffered (incomplete) -/
+def reassemble (c : HsCtx) (m : HsMsg) : Cur (Nat × HsCtx) := do
+  if m.total ≠ m.fragLen then
+    let inc0 := if c.incSeq ≠ m.seq ∨ m.fragOff = 0 then 0 else c.incLen   -- "new message or first fragment, reset buffer"
+    alloc m.fragLen                                       -- `incomplete_handshake.extend_from_slice(&msg.body)`
+    let inc := inc0 + m.fragLen
+    if inc < m.total then pure (2, { c with incLen := inc, incSeq := m.seq }) else
+    alloc (12 + inc)                                      -- re-encoded `full_raw`
+    let s ← seqAdvance c.recvSeq
+    pure (1, { c with incLen := 0, incSeq := m.seq, recvSeq := s })   -- `incomplete_handshake.split()` leaves it empty
+  else
+    let s ← seqAdvance c.recvSeq
+    pure (1, { c with recvSeq := s })
+
+/-- one decoded message through the acceptance / reassembly logic; result 0 = skipped (duplicate / out of order),
+1 = dispatched, 2 = buffered, 3 = duplicate ClientHello re-dispatched on the server (retransmit trigger) -/
+def onMessage (isClient : Bool) (c : HsCtx) (m : HsMsg) : Cur (Nat × HsCtx) :=
+  let a := acceptSeq isClient c.recvSeq c.postHvr m.seq
+  if ¬ a.1 then pure (if m.seq < c.recvSeq ∧ m.typ = 1 ∧ ¬ isClient then 3 else 0, c)
+  else reassemble { c with recvSeq := a.2, postHvr := false } m
+
+/-- a whole history of decoded messages; stops at the first error (the handshake is aborted) -/
+def onMessages (isClient : Bool) : HsCtx → List HsMsg → Cur HsCtx
+  | c, [] => pure c
+  | c, m :: rest => do
+    let r ← onMessage isClient c m
+    onMessages isClient r.2 rest
+
 end RtcModel.C07.Dtls
